@@ -23,7 +23,7 @@ func run(t *testing.T, prop string, x any, cfg simrt.Config) *eng.Outcome {
 	res, obs := execScn(t, sc, cfg)
 	var mod *Model
 	switch {
-	case prop == "C05" || prop == "C11" || prop == "C20", (prop == "C06" || prop == "C09" || prop == "C17") && sc.Ctx.Kind == "cancel" && hasBatch(sc):
+	case prop == "C05" || prop == "C11" || prop == "C20", (prop == "C06" || prop == "C09" || prop == "C17" || prop == "C01") && sc.Ctx.Kind == "cancel" && hasBatch(sc):
 		// these oracles relate the log to the uncancelled run
 		mod = runModelUncancelled(sc)
 	default:
@@ -31,6 +31,13 @@ func run(t *testing.T, prop string, x any, cfg simrt.Config) *eng.Outcome {
 	}
 	o := &eng.Outcome{Res: res, Faults: map[string]int{}, Probes: map[string]int{}}
 	c := &octx{prop: prop, sc: sc, mod: mod, obs: obs, res: res, out: o}
+	if hasPanic(sc) {
+		// judged on the log alone: the panic reaches the caller or becomes the item's error
+		if o.V = c.terminated(); o.V == nil {
+			o.V = c.panicRule()
+		}
+		return o
+	}
 	if prop == "C18" && sc.Ctx.Kind == "cancel" {
 		// judged on the log alone (a cancelled batch is outside the exact model)
 		o.V = oracle(c)
